@@ -13,7 +13,7 @@
 (* Trace_Rewr checks that the CODE's outputs are the model's outputs up to  *)
 (* the order of commutative arguments (MODEL-DRIFT otherwise).              *)
 (***************************************************************************)
-EXTENDS Contracts
+EXTENDS Simplifier          \* (which extends Contracts) - the CNFizer calls simplify() on negated literals
 
 RNot(a) == IF a.op = "not" THEN a.a[1] ELSE Op("not", <<a>>)          \* FormulaManager.Not
 RAnd(args) == IF Len(args) = 0 THEN BoolC(TRUE) ELSE IF Len(args) = 1 THEN args[1] ELSE Op("and", args)
@@ -133,5 +133,63 @@ RECURSIVE PWrap(_, _, _)
 PWrap(qs, j, m) == IF j > Len(qs) THEN m ELSE PWrap(qs, j + 1, Quant(qs[j].q, SetToSeqBy(qs[j].vs), m))
 PrenexM(t) == LET r == PrenexW(t, 0) IN PWrap(r.qs, 1, r.m)
 
-RewrModel(proc, t) == CASE proc = "nnf" -> NnfM(t) [] proc = "prenex" -> PrenexM(t) [] OTHER -> AigM(t)
+\* ---------------------------------------------------------------------------------------------------------
+\* CNFizer (Tseitin with one definitional variable per connective node).  The walk returns (literal, clauses);
+\* the key variable of a node is FreshSymbol(): the model names it by the position of the node in the post-order
+\* enumeration of the connective sub-formulas of the input ("@c1", "@c2", ...) - the DAG walker memoises by node,
+\* so equal sub-formulas share their variable.  Negated literals go through simplify() (NotS), except in walk_or.
+IsKeyed(t) == (t.op \in {"and", "or"} /\ Len(t.a) >= 2) \/ t.op \in {"implies", "iff"} \/ IsBoolIte(t)
+IsCnfConn(t) == t.op \in {"and", "or", "not", "implies", "iff"} \/ IsBoolIte(t)
+RECURSIVE KeyedSeq(_, _)
+KeyedSeq(t, acc) ==            \* post-order, without repetitions
+    IF ~IsCnfConn(t) THEN acc
+    ELSE LET RECURSIVE Kids(_, _)
+             Kids(j, a) == IF j > Len(t.a) THEN a ELSE Kids(j + 1, KeyedSeq(t.a[j], a))
+             a1 == Kids(1, acc)
+         IN  IF IsKeyed(t) /\ ~\E j \in 1..Len(a1) : a1[j] = t THEN Append(a1, t) ELSE a1
+CKey(t, ks) == Sym("@c" \o ToString(CHOOSE j \in 1..Len(ks) : ks[j] = t), TBool)
+NotS(a) == Simp(RNot(a))
+CRes(l, cs) == [l |-> l, cs |-> cs]
+RECURSIVE CnfW(_, _)
+CnfW(t, ks) ==
+    LET W(x) == CnfW(x, ks)
+        k == CKey(t, ks)
+        nk == Op("not", <<k>>)
+    IN
+    CASE t.op = "and" /\ Len(t.a) >= 2 ->
+            LET rs == [j \in 1..Len(t.a) |-> W(t.a[j])]
+            IN  CRes(k, {{k} \cup {NotS(rs[j].l) : j \in 1..Len(rs)}} \cup {{rs[j].l, nk} : j \in 1..Len(rs)}
+                        \cup UNION {rs[j].cs : j \in 1..Len(rs)})
+      [] t.op = "or" /\ Len(t.a) >= 2 ->
+            LET rs == [j \in 1..Len(t.a) |-> W(t.a[j])]
+            IN  CRes(k, {{nk} \cup {rs[j].l : j \in 1..Len(rs)}} \cup {{k, RNot(rs[j].l)} : j \in 1..Len(rs)}
+                        \cup UNION {rs[j].cs : j \in 1..Len(rs)})
+      [] t.op = "not" ->
+            LET r == W(t.a[1])
+            IN  IF r.l = BoolC(TRUE) THEN CRes(BoolC(FALSE), {}) ELSE IF r.l = BoolC(FALSE) THEN CRes(BoolC(TRUE), {})
+                ELSE CRes(NotS(r.l), r.cs)
+      [] t.op = "implies" ->
+            LET a == W(t.a[1]) b == W(t.a[2])
+            IN  CRes(k, a.cs \cup b.cs \cup {{NotS(a.l), b.l, nk}, {a.l, k}, {NotS(b.l), k}})
+      [] t.op = "iff" ->
+            LET a == W(t.a[1]) b == W(t.a[2])
+            IN  CRes(k, a.cs \cup b.cs \cup {{NotS(a.l), NotS(b.l), k}, {NotS(a.l), b.l, nk}, {a.l, NotS(b.l), nk}, {a.l, b.l, k}})
+      [] IsBoolIte(t) ->
+            LET i == W(t.a[1]) th == W(t.a[2]) el == W(t.a[3])
+            IN  CRes(k, i.cs \cup th.cs \cup el.cs \cup
+                        {{NotS(i.l), NotS(th.l), k}, {NotS(i.l), th.l, nk}, {i.l, NotS(el.l), k}, {i.l, el.l, nk}})
+      [] OTHER -> CRes(t, {})
+\* CNFizer.convert + convert_as_formula
+CnfM(t) ==
+    LET ks == KeyedSeq(t, <<>>)
+        r == CnfW(t, ks)
+        ntl == NotS(r.l)
+        Keep(c) == ~(BoolC(TRUE) \in c) /\ ~(r.l \in c)
+        Strip(c) == {x \in c : x # ntl /\ x # BoolC(FALSE)}
+        kept == {Strip(c) : c \in {c \in r.cs : Keep(c)}}
+        clauses == IF r.cs = {} THEN {{r.l}}
+                   ELSE IF ({} \in r.cs) \/ ({} \in kept) THEN {{}} ELSE kept
+    IN  RAnd(SetToSeqBy({ROr(SetToSeqBy(c)) : c \in clauses}))
+
+RewrModel(proc, t) == CASE proc = "cnf" -> CnfM(t) [] proc = "nnf" -> NnfM(t) [] proc = "prenex" -> PrenexM(t) [] OTHER -> AigM(t)
 =============================================================================
